@@ -15,6 +15,11 @@ CONSTANTS
   ZeroMeansUnset = TRUE
   PrevFiles = {"none", "longer"}
   Truncates = TRUE
+  InputVariants = {"plain"}
+  TZs = {"UTC0"}
+  AslrBases = {1}
+  DateMacros = "undefined"
+  PrintsPointer = FALSE
   TieBreak = "signature"
 INVARIANT OutputPure
 CHECK_DEADLOCK FALSE
